@@ -6,7 +6,7 @@
 #ifndef K
 #define K 2
 #endif
-#define VF_INPUTS(X) X(unsigned char, ka, ) X(unsigned char, kb, ) X(unsigned char, na, ) X(unsigned char, nb, ) X(unsigned char, keya, [K]) X(unsigned char, keyb, [K]) \
+#define VF_INPUTS(X) X(double, numa, ) X(double, numb, ) X(unsigned char, ka, ) X(unsigned char, kb, ) X(unsigned char, na, ) X(unsigned char, nb, ) X(unsigned char, keya, [K]) X(unsigned char, keyb, [K]) \
     X(unsigned char, kinda, [K]) X(unsigned char, kindb, [K]) X(int, va, [K]) X(int, vb, [K]) X(unsigned char, sa, [K]) X(unsigned char, sb, [K])
 #include "vf.h"
 #ifndef VF_LIB
@@ -57,10 +57,27 @@ static void check_wf(const cJSON *root, const cJSON *kids, unsigned cnt)
     for (i = 0; i < cnt; i++) { unsigned seen = 0; g = 0; for (c = root->child; c != 0 && g <= K; c = c->next, g++) if (c == &kids[i]) seen++; VF_AP(19, seen == 1, "C19 after a sorting utility call: same member nodes"); }
 }
 
+static int sat(double d) { return d >= INT_MAX ? INT_MAX : d <= (double)INT_MIN ? INT_MIN : (int)d; }
 int main(VF_MAIN_ARGS)
 {
     unsigned i, j; int r, spec, ka, kb;
     VF_INIT();
+#ifdef NUMMODE
+    {   /* the number case on its own: every pair of finite doubles with their saturated integer views */
+        double p = IN.numa, q = IN.numb, m;
+        VF_ASSUME(fabs(p) <= DBL_MAX && fabs(q) <= DBL_MAX);
+        memset(&A, 0, sizeof A); memset(&B, 0, sizeof B);
+        A.type = cJSON_Number; B.type = cJSON_Number; A.valuedouble = p; B.valuedouble = q; A.valueint = sat(p); B.valueint = sat(q);
+        r = compare_json__real(&A, &B, 1);
+        m = fabs(p) > fabs(q) ? fabs(p) : fabs(q);
+        spec = sat(p) == sat(q) && fabs(p - q) <= m * DBL_EPSILON;
+        VF_AP(16, (r != 0) == (spec != 0), "C16 numbers compare equal iff their integer views agree and the doubles are equal within relative DBL_EPSILON");
+        VF_AP(18, (r != 0) == (spec != 0), "C18 numbers compare equal iff their integer views agree and the doubles are equal within relative DBL_EPSILON");
+        VF_AP(17, (r != 0) == (spec != 0), "C17 numbers compare equal iff their integer views agree and the doubles are equal within relative DBL_EPSILON");
+        VF_WITNESS("number");
+        return 0;
+    }
+#endif
     na = IN.na % (K + 1); nb = IN.nb % (K + 1);
     ka = ckind(IN.ka); kb = ckind(IN.kb);
     if (ka == cJSON_Number) na = 0; if (kb == cJSON_Number) nb = 0;
